@@ -159,6 +159,11 @@ def _run_once(case, preempt):
 
             def on_worker_end(idx):
                 if idx >= n:
+                    if not any(e["k"] == "srv_sees_shutdown" and e["t"] == idx for e in events):
+                        # the shutdown flag is not observable (renamed): the request-port thread must have noticed
+                        # the request at some point before it ended; for the model that point is here
+                        st = dict(events[-1]["state"]) if events else snapshot()
+                        events.append({"k": "srv_sees_shutdown", "t": idx, "state": st, "synthetic": True})
                     events.append({"k": "srv_end", "t": idx, "state": snapshot()})
 
             s.on_release = on_release
@@ -188,7 +193,11 @@ def run_case(case):
     if case.get("sweep"):
         # every single pre-emption of the chunk: at every global step, to every other worker (callers and the
         # request-port threads that exist by then)
-        total = _total_steps(case)
+        base = _run_once(case, [list(p) for p in case.get("preempt", [])])
+        if base["deadlock"] or base["livelock"] or base["timed_out"] or base["errors"]:
+            # already the run without any pre-emption fails: that is the outcome; sweeping it would take for ever
+            return {"sweep": [base], "total_steps": base["steps"], "runs": 1}
+        total = min(base["steps"], int(case.get("max_sweep_steps", 600)))
         k, mod = case["sweep"]
         n = len(case["threads"])
         outs, distinct, runs = [], {}, 0
@@ -202,6 +211,8 @@ def run_case(case):
                                  sort_keys=True)
                 if key not in distinct:
                     distinct[key] = o
+            if len(distinct) >= 40:
+                break       # far more distinct outcomes than the correct code has: enough to judge
         return {"sweep": list(distinct.values()), "total_steps": total, "runs": runs}
     pre = case.get("preempt", [])
     if "preempt_frac" in case:
